@@ -8,7 +8,8 @@ from . import common as C
 THEOREMS = {
     "C12": ["ShipVerif.Ws.C12_write_vs_close", "ShipVerif.Ws.wsCfg_is_fixed", "ShipVerif.Ws.inv_run", "ShipVerif.Ws.C12_pinned_panics"],
     "C13": ["ShipVerif.Ws.C13_transport_loss", "ShipVerif.Ws.C13_pumps_terminate", "ShipVerif.Ws.wsCfg_is_fixed", "ShipVerif.Ws.inv_run",
-            "ShipVerif.Ws.C13_pinned_leaks_socket", "ShipVerif.Ws.C13_local_close_reported_before_fix"],
+            "ShipVerif.Ws.C13_pinned_leaks_socket", "ShipVerif.Ws.C13_local_close_reported_before_fix",
+            "ShipVerif.Ws.C13_no_late_delivery", "ShipVerif.Ws.inv2_run", "ShipVerif.Ws.C13_no_recheck_delivers_late"],
 }
 
 
